@@ -118,11 +118,18 @@ func replayStreamPath(p streamPath, maxBuf int) (res replayResult) {
 		res.Detail = fmt.Sprintf(format, args...)
 		return res
 	}
-	// pending[id] = what the actor is in the middle of ("" = idle)
+	// typers whose SetDataType came back without entering its lock region although the specification stores the type
+	// there: not a verdict by itself (nothing was observed yet); the replay goes on and the next observation of the type
+	// (GetDataType) is compared with the specification's value
+	setSkipped := map[int]bool{}
 	for i, st := range p.Steps {
 		a := get(st.Act, st.ID)
 		var n note
 		var err error
+		if st.Act == "TSet" && setSkipped[st.ID] {
+			delete(setSkipped, st.ID)
+			continue
+		}
 		switch st.Act {
 		case "Init":
 			continue
@@ -197,6 +204,10 @@ func replayStreamPath(p streamPath, maxBuf int) (res replayResult) {
 			case string:
 				return fail(i, "mismatch", "type-early", "%s(%d): GetDataType returned %q where spec keeps waiting", st.Act, st.ID, r)
 			default:
+				if st.Act == "TBegin" {
+					setSkipped[st.ID] = true
+					continue
+				}
 				return fail(i, "deviation", "returned-early", "%s(%d): code returned where spec continues", st.Act, st.ID)
 			}
 		}
